@@ -16,7 +16,7 @@ PROP_FILES = ["theories/Props/C04.v", "theories/Inst/C04_inst.v"]
 DEPS = ["theories/Proofs/C04_proofs.vo", "theories/Gen/Ladders.vo"]
 
 HEALTHY = ["import pickle\npickle.loads(x)\n", "assert a\n", "x = 1\n", "import subprocess\nsubprocess.call(c, shell=True)\n"]
-STAGES = ["AtOpen", "AtRead", "AtTokenize", "AtProcess"]
+STAGES = ["AtOpen", "AtRead", "AtTokenize", "AtProcess", "AtVisitEnd"]      # AtVisitEnd: inside process(), after the whole tree was visited (findings exist)
 OPEN_CLASSES = {"OSError": OSError, "FileNotFoundError": FileNotFoundError, "PermissionError": PermissionError,
                 "IsADirectoryError": IsADirectoryError}
 EXC_CLASSES = dict(OPEN_CLASSES, **{"SyntaxError": SyntaxError, "IndentationError": IndentationError, "ValueError": ValueError,
@@ -75,6 +75,9 @@ def run_with_fault(paths, target, stage, exc_name):
     def fake_process(self, data):
         if self.fname == target and stage == "AtProcess":
             raise make_exc(exc_name)
+        if self.fname == target and stage == "AtVisitEnd":
+            real_process(self, data)          # every check has run and appended its findings to the visitor's tester
+            raise make_exc(exc_name)
         return real_process(self, data)
 
     bman.open = fake_open
@@ -132,6 +135,9 @@ def fault_cases(R, rng, tier):
                     for f, reason in o["skipped"]:
                         if not reason:
                             R.violations.append({"what": "file skipped without a reason", "input": inp, "observed": o["skipped"], "signature": None})
+                    if any(f == paths[pos] for f, _ in o["skipped"]) and [r for r in o["results"] if r["fname"] == paths[pos]]:
+                        R.violations.append({"what": "a skipped file still contributes findings (it is both skipped and reported on)", "input": inp,
+                                             "observed": [(r["test_id"], r["lineno"]) for r in o["results"] if r["fname"] == paths[pos]], "signature": None})
                     for p in paths:
                         if p != paths[pos]:
                             if [r for r in o["results"] if r["fname"] == p] != own[p]:
@@ -139,7 +145,7 @@ def fault_cases(R, rng, tier):
                                                      "observed": [r["test_id"] for r in o["results"]], "signature": None})
                     # ---- the model
                     files_coq = L.lst(["(%s, %s, %s)" % (L.pstr(os.path.basename(p)),
-                                                          "(Some (%s, %s))" % (stage, L.pstr(exc)) if i == pos else "None",
+                                                          "(Some (%s, %s))" % ("AtProcess" if stage == "AtVisitEnd" else stage, L.pstr(exc)) if i == pos else "None",
                                                           L.lst([impl.finding_coq(r) for r in own[p]], "finding"))
                                        for i, p in enumerate(paths)], "file_input")
                     exp = "(%s, %s, %s)" % (L.lst([L.pstr(os.path.basename(f)) for f in o["files"]], "pstr"),
